@@ -116,6 +116,12 @@ def run(rep, tier, seed):
         for v in range(2):
             cases.append({"k": f"c03e-{pos}-{v}", "xml": xml, "cfg": dict(textc.CONFIGS[v * 2]), "case": {"fam": "embedded", "pos": pos},
                           "mode": "embedded", "sub": sub})
+    # a namespaced <svg> written as an empty element
+    esub = f'<svg {NS} width="5" wh="7" xy="^|h 2" class="a  b" text="t"/>'
+    for pos, xml in (("first", f"<svg>{esub}<rect wh=\"3\"/></svg>"), ("later", f"<svg><rect wh=\"3\"/>{esub}</svg>"),
+                     ("in-g", f"<svg><rect wh=\"3\"/><g>{esub}</g></svg>")):
+        cases.append({"k": f"c03ee-{pos}", "xml": xml, "cfg": {}, "case": {"fam": "embedded", "pos": pos + "-empty-tag"},
+                      "mode": "embedded", "sub": esub})
     # ... carrying the payloads as well: nothing inside the namespaced subtree may be normalised
     seen = set()
     wraps = [("first", "<svg>{}<rect wh=\"3\"/></svg>"), ("later", "<svg><rect wh=\"3\"/>{}</svg>"),
